@@ -346,6 +346,8 @@ def _drive(rep: Report, tier: str, seed: int, P: Any, d: Path, futs: dict[str, A
     bad = sorted(batch.bad, key=lambda x: (order.get(f"{x[1]['container']}/{x[1]['prefix']}", 1), x[1]["n"],
                                            len(x[0]["ops"]), x[0]["id"]))
     counts: dict[str, int] = {}
+    uniq: list[tuple[int, int, str, dict[str, Any], dict[str, Any]]] = []
+    groups: dict[Any, int] = {}
     for t, m, v in bad:
         sig = _sig(m, t, v)
         k = v[0] + " " + json.dumps(sig, sort_keys=True)
@@ -353,9 +355,15 @@ def _drive(rep: Report, tier: str, seed: int, P: Any, d: Path, futs: dict[str, A
         if counts[k] > 1:
             continue
         failing = t["ops"][v[1] - 1] if 1 <= v[1] <= len(t["ops"]) else {"op": "open", "res": t["open"]}
-        rep.violate(v[0], sig, {"spec": m["spec"], "container": m["container"], "prefix": m["prefix"],
-                                "api": m["api"], "argv": m.get("argv"), "ops": [o["op"] for o in t["ops"]],
-                                "failing_op_index": v[1], "observed": failing["res"], "origin": m["origin"]})
+        g = (v[0], sig.get("mode"), sig.get("how"), sig.get("fresh"), sig.get("api"))
+        groups[g] = groups.get(g, 0) + 1
+        uniq.append((groups[g], len(uniq), v[0], sig,
+                     {"spec": m["spec"], "container": m["container"], "prefix": m["prefix"],
+                      "api": m["api"], "argv": m.get("argv"), "ops": [o["op"] for o in t["ops"]],
+                      "failing_op_index": v[1], "observed": failing["res"], "origin": m["origin"]}))
+    # one representative of every kind of failure first (the report prints / stores only the first few)
+    for _rank, _i, label, sig, detail in sorted(uniq, key=lambda u: (u[0], u[1])):
+        rep.violate(label, sig, detail)
     rep.extra["violating_sessions"] = len(bad)
     rep.extra["violation_counts"] = dict(sorted(counts.items(), key=lambda kv: -kv[1])[:40])
     for t, m, label in batch.samples[:: max(1, len(batch.samples) // 6)]:
